@@ -781,11 +781,11 @@ func init() {
 			"jailing by the workload uses valset.Jail (what Paloma's own liveness flow calls); stake moves and unjail are real txs",
 			"a bridge redeployment is the call the attested deployment flow ends in (EvmKeeper.ActivateChainReferenceID with a contract newer than the active one and a new unique id), made at a block boundary; the new deployment's event nonces start at 1; re-activations with a contract that is not newer are not exercised here (C13 does)",
 		},
-		Cases:       cases,
-		Run:         run,
+		Cases: cases,
+		Run:   run,
 		MinCounters: []string{"attestations_observed", "claims_accepted", "claims_accepted_altered", "deposits_applied", "overrides", "tallies_within_2pct_of_threshold", "observed_checked_against_own_vote_log",
 			"redeployments_at_cursor_zero_with_pending_votes", "redeployments_after_observed_nonces_with_pending_votes", "old_deployment_votes_accepted_after_redeployment", "observed_on_redeployed_bridge"},
-		TimeoutS:    1500,
+		TimeoutS: 1500,
 	})
 }
 
